@@ -169,8 +169,17 @@ ExclKind(s, k) == IF Has(s, k) THEN s[k].k ELSE "none"
 
 \* deviation "IntBoundTruncated": on integer fields the generator truncates every boundary toward zero
 TruncQ(v) == IF v.t # "num" THEN v ELSE IF v.h >= 0 THEN JNum((v.h \div U) * U) ELSE JNum(-(((-v.h) \div U) * U))
+\* deviation "Float64Bounds" (validator side): schema constants are float64, and the boundary of an integer field
+\* is emitted as int64(constant).  A constant within a few units of +2^63 or 2^64 rounds to 2^63 / 2^64, which does
+\* not fit an int64: the conversion yields the most negative int64 (amd64), so the emitted comparison is against
+\* -2^63.  Near -2^63 the offset is rounded away.
+GoBound(v, D) ==
+  IF "Float64Bounds" \in D /\ v.t = "big" /\ v.e >= 63
+  THEN (IF v.sg = 1 THEN [t |-> "big", sg |-> -1, e |-> 63, o |-> 0] ELSE [v EXCEPT !.o = 0])
+  ELSE v
 NumOK(s, x, D) ==
-  LET AsNum(v) == IF "IntBoundTruncated" \in D /\ Main(s) = "integer" THEN TruncQ(v) ELSE v
+  LET AsNum(v) == IF Main(s) # "integer" THEN v
+                  ELSE GoBound(IF "IntBoundTruncated" \in D THEN TruncQ(v) ELSE v, D)
       minOK  == ~Has(s, "minimum") \/ NumLE(AsNum(s.minimum), x)
       maxOK  == ~Has(s, "maximum") \/ NumLE(x, AsNum(s.maximum))
       eminOK == CASE ExclKind(s, "exclusiveMinimum") = "n" -> NumLT(AsNum(s.exclusiveMinimum.h), x)
